@@ -134,6 +134,18 @@ FAULTS = [
 ]
 
 
+def make_cases_chatty():
+    """Servers that send debug messages in front of their group-exchange messages (as some announce their choice of
+    group): the groups handed out are the same, so is what must be reported."""
+    i = 0
+    for moduli in ([1024], [2048], [3072], [1024, 4096], [2048, 3072], [512, 768, 8192], [1536, 2048, 6144], []):
+        for style in ('strict', 'roundup', 'openssh', 'prefup'):
+            for banner in ('openssh', 'dropbear'):
+                for chatter in ({'gex_group': 1}, {'gex_group': 3}, {'gex_reply': 2}, {'gex_group': 1, 'gex_reply': 1}, {'kexdh_reply': 2, 'gex_group': 2}, {'gex_group': 40}):
+                    i += 1
+                    yield {'moduli': moduli, 'style': style, 'algs': ('sha256', 'both', 'sha1')[i % 3], 'banner': banner, 'family': 'extension' if style == 'prefup' else 'stated', 'chatter': chatter}
+
+
 def make_cases_faults():
     for moduli in ([1024], [2048], [1024, 4096], [2048, 3072], [4096]):
         for style in ('strict', 'openssh'):
@@ -205,6 +217,8 @@ def eval_case(case):
         spec['moduli_by_alg'] = {SHA1: case['moduli'], SHA256: case['moduli256']}
     if case.get('fault'):
         spec['faults'] = [case['fault']]
+    if case.get('chatter'):
+        spec['chatter'] = case['chatter']
     openssh = case['banner'].startswith('openssh')
     fails = []
     want, fb = ref_expected(case['moduli'], case['style'], openssh)
@@ -333,6 +347,8 @@ def run(ctx):
     ctx.map(lp)
     pa = list(make_cases_peralg())
     ctx.map(pa)
+    ch = list(make_cases_chatty())
+    ctx.map(ch)
     ext = list(make_cases_extension())
     if ctx.quick:
         head, tail = ext[:4 * len(NEAR) + 72], ext[4 * len(NEAR) + 72:]
